@@ -66,6 +66,10 @@ def run(run, ix, tier):
     from ..stale_pack import check_stale_packs
     run.rule('C-R9', floor=30, desc='packed interval and unpacked endpoints stay in sync')
     check_stale_packs(run, ix, 'C-R9', prefix='mpi_')
+    # C-R16: zero and infinite endpoints through + - * / (class-level enclosure, sa/checks/special_rules.py)
+    from .special_rules import check_interval_endpoints
+    run.rule('C-R16', floor=500, desc='interval + - * / on every combination of endpoint classes (0, +-inf)')
+    check_interval_endpoints(run, ix, 'C-R16')
 
 
 def common(run, ix, complex_):
